@@ -219,7 +219,7 @@ def run_columns(ctx):
             islnk = stat.S_ISLNK(ls.st_mode)
             exp = {"name": name, "ext": rust_extension(name), "dir": os.path.dirname(v["path"]), "size": str(ls.st_size), "uid": str(ls.st_uid), "gid": str(ls.st_gid),
                    "inode": str(ls.st_ino), "hardlinks": str(ls.st_nlink), "blocks": str(ls.st_blocks),
-                   "modified": _t.strftime("%Y-%m-%d %H:%M:%S", _t.gmtime(int(ls.st_mtime))), "is_hidden": "true" if name.startswith(".") else "false",
+                   "modified": _t.strftime("%Y-%m-%d %H:%M:%S", _t.gmtime(ls.st_mtime_ns // 1000000000)), "is_hidden": "true" if name.startswith(".") else "false",
                    "absdir": os.path.realpath(os.path.dirname(p))}
             try:
                 exp["user"] = pwd.getpwuid(ls.st_uid).pw_name
@@ -284,6 +284,33 @@ def run_columns(ctx):
                     ctx.violation("impl-violates-spec", "with the list %s = %s in the configuration, %s of %r is %s" % (k, over[k], k, row[0], got), input={"query": r["query"], "config": over})
                     break
         st["ok"] += len(rows)
+    # CONTAINS(s): whether the text of the file contains s - needles inside a line, across a line break (LF and CRLF), empty,
+    # absent; files that are empty, multi-line, larger than one buffer, without a trailing newline, not valid UTF-8
+    cd_ = os.path.join(ctx.scratch, "contains")
+    os.mkdir(cd_)
+    texts = {"multi.txt": "alpha\nbeta\ngamma", "crlf.txt": "one\r\ntwo\r\n", "empty": "", "blank.txt": "a\n\nb", "big.txt": ("x" * 70 + "\n") * 1200 + "needle at the end",
+             "uni.txt": "h\u00e9llo w\u00f6rld\nline", "single": "no newline here"}
+    for nm, tx in texts.items():
+        with open(os.path.join(cd_, nm), "wb") as f:
+            f.write(tx.encode("utf-8"))
+    with open(os.path.join(cd_, "binary"), "wb") as f:
+        f.write(b"\xff\xfe\x00abc")
+    needles = ["alpha", "beta\ngamma", "alpha\nbeta", "a\n\nb", "\n\n", "one\r\ntwo", "two\r", "needle at the end", "x\nx", "w\u00f6rld\nli", "zzz", "no newline", "e\nl"]
+    for nd in (needles if ctx.tier == "thorough" else rng.sample(needles, 7) + ["alpha\nbeta"]):
+        if qlib.quote(nd) is None:
+            continue
+        rows, r = qlib.select(ctx.impl, "name, contains(%s)" % qlib.quote(nd), "from contains", cwd=ctx.scratch)
+        st["n"] += 1
+        if rows is None:
+            ctx.violation("impl-violates-spec", "contains query failed: %r" % r["stderr"][:200], input={"query": r["query"]})
+            continue
+        for nm, got in rows:
+            want = "" if nm == "binary" else ("true" if nd in texts[nm] else "false")
+            if got != want:
+                ctx.violation("impl-violates-spec", "CONTAINS(%r) of %s is %r, the text %s it" % (nd, nm, got, "contains" if want == "true" else "does not contain"), input={"query": r["query"], "file": nm})
+                break
+        else:
+            st["ok"] += len(rows)
     # correspondence: the same verdicts from util::has_extension and the default lists as regenerated from the source (gen/ExtGen.v)
     from .common import coq_eval, gstr, glist, parse_nested
     obs = [o for o in st.get("ext_obs", []) if all(ord(c) < 0x110000 for c in o[0])]
@@ -328,7 +355,7 @@ def run(ctx):
     m = run_modes(ctx)
     c = run_columns(ctx)
     ctx.coverage["columns_part"] = dict(queries=c["n"], entries_checked=c["ok"], extension_verdicts_equal_to_regenerated_has_extension=c.get("ext_model_agreed", 0), distinct_entries=len(c["distinct"]), samples=c["samples"],
-                                        rule="random trees (files with contents: empty, shebang, no trailing newline, binary, > 64 KiB, 9000 newlines; mtimes incl. 0 and 2038+; owners without a name; xattrs; sockets; links incl. dangling; dot-files, several dots, upper-case extensions) - columns path,name,ext,dir,abspath,absdir,size,uid,gid,user,group,inode,hardlinks,blocks,modified,is_hidden,is_empty, the eight extension classes (default lists read from config.rs, and a configuration file overriding every list with plain, compound and dot-less endings), sha1/sha256/sha512/sha3, line_count, is_shebang, has_xattrs compared with os.lstat, pwd/grp, hashlib and the directory contents")
+                                        rule="random trees (files with contents: empty, shebang, no trailing newline, binary, > 64 KiB, 9000 newlines; mtimes incl. 0 and 2038+; owners without a name; xattrs; sockets; links incl. dangling; dot-files, several dots, upper-case extensions) - columns path,name,ext,dir,abspath,absdir,size,uid,gid,user,group,inode,hardlinks,blocks,modified,is_hidden,is_empty, the eight extension classes (default lists read from config.rs, and a configuration file overriding every list with plain, compound and dot-less endings), sha1/sha256/sha512/sha3, line_count, is_shebang, has_xattrs, CONTAINS(s) with needles inside a line and across line breaks compared with os.lstat, pwd/grp, hashlib and the directory contents")
     ctx.coverage.update(
         evaluations=m["evaluations"] + c["ok"], distinct_nontrivial=m["distinct"] + len(c["distinct"]),
         traces_validated_against_impl=m["agreed"],
